@@ -154,3 +154,42 @@ func Harness_C16_initialize_over_existing_tape() {
 	}
 	vm.Cover("C16.full_path_reached", true)
 }
+
+// Harness_C16_reopen_protected_tape: a tape written with header encryption and/or signatures is opened by a second
+// instance (same keys, no index yet): the rebuild on open decrypts and verifies with the reading side's keys, appends
+// nothing, and shows what was written.
+func Harness_C16_reopen_protected_tape() {
+	pipes := config.PipeConfig{}
+	switch vm.Choice("protection", 3) {
+	case 0:
+		pipes.Encryption = config.EncryptionFormatAgeKey
+	case 1:
+		pipes.Signature = config.SignatureFormatMinisignKey
+	case 2:
+		pipes.Encryption = config.EncryptionFormatAgeKey
+		pipes.Signature = config.SignatureFormatMinisignKey
+	}
+	rc, wc := verifCrypto(pipes)
+	first := verifNewFSCrypto(pipes, rc, wc, false, true)
+	first.Env.Tape.Exists = false
+	_, ierr := first.FS.Initialize("/", os.ModePerm)
+	vm.Assert("C16.protected_first_initialize_ok", ierr == nil)
+	if ierr != nil {
+		return
+	}
+	vm.Assert("C16.protected_mkdir_ok", first.FS.Mkdir("/d", 0o755) == nil)
+	// the second instance: same drive, same keys, an empty index
+	second := verifNewFSCrypto(pipes, rc, wc, vm.Bool("readOnly"), true)
+	vm.GhostFS[second.Env.Drive] = first.Env.Tape
+	second.Env.Tape = first.Env.Tape
+	t := first.Env.Tape
+	appendsBefore, lenBefore := t.Appends, t.Len
+	_, err := second.FS.Initialize("/", os.ModePerm)
+	vm.Assert("C16.protected_reopen_ok", err == nil)
+	vm.Assert("C16.protected_reopen_appends_nothing", t.Appends == appendsBefore && t.Len == lenBefore && t.Truncates == 0)
+	if err == nil {
+		st, serr := second.FS.Stat("/d")
+		vm.Assert("C16.protected_reopen_shows_what_was_written", serr == nil && st.IsDir())
+	}
+	vm.Assert("C16.protected_reopen_locks_free", second.Env.LocksFree())
+}
